@@ -43,7 +43,22 @@ def quote_choice(ses, rep):
             n = m.eval(lit.n, model_completion=True).as_long()
             body = "".join(chr(m.eval(lit.c[i], model_completion=True).as_long()) for i in range(n))
             flagged.append((f"quote/{st_name}", f"quote choice for {body!r} under {st_name}", "quote", {"body": body, "style": st_name}))
+    from ..strmodel import quote_wiring
+    flagged += quote_wiring(ses, "default")
     return flagged
+
+
+WIRING_BODIES = ["a", "it's", 'say "hi"', "a\nb", "it's\nb", 'q"\nb', "tab\\tx", "\\065", "\\x41", "a\\z\n  b", "it's \\z\n  \"b\"", "\u00e9l\u00e9ment", "", " "]
+
+
+def replay_quote_wiring(info):
+    """every literal shape (plain, with either quote, with a line continuation, with escapes, non-ASCII, empty) under every style"""
+    for st_name in c04.STYLES:
+        for body in WIRING_BODIES:
+            v, rec = replay_quote({"body": body, "style": st_name})
+            if v:
+                return v, rec
+    return None, {}
 
 
 def replay_quote(info):
@@ -351,7 +366,7 @@ def replay_hint(info):
     return None, {}
 
 
-REPLAYS = {"quote": replay_quote, "parens": replay_parens, "spaces": replay_spaces, "hint": replay_hint}
+REPLAYS = {"quote-wiring": replay_quote_wiring, "quote": replay_quote, "parens": replay_parens, "spaces": replay_spaces, "hint": replay_hint}
 
 
 def run(ses, rep):
